@@ -102,7 +102,9 @@ def abstract(draw):
                 # legacy files may name the forcing file and the grid file in the gridforce or in the files section
                 v1_places=draw(st.sampled_from(["gg", "gg", "gf", "fg", "ff"])),
                 # the file format named in the configuration (legacy: output_variables.format; v2: ncargs.data_model)
-                ncformat=draw(st.sampled_from(["NETCDF4", "NETCDF4", "NETCDF4_CLASSIC", "NETCDF3_CLASSIC", "NETCDF3_64BIT_OFFSET"])))
+                ncformat=draw(st.sampled_from(["NETCDF4", "NETCDF4", "NETCDF4_CLASSIC", "NETCDF3_CLASSIC", "NETCDF3_64BIT_OFFSET"])),
+                # some release rows switched off through an `active` column of 0 / 1 in the release file
+                active_col=draw(st.sampled_from([0, 0, 0b0110, 0b1, 0b10101])))
 
 
 def build_files(d, a):
@@ -146,11 +148,14 @@ def build_files(d, a):
         roms.write_roms(gridfile, G, [], np.zeros((0, 3, a["jm"], a["im"] - 1)), np.zeros((0, 3, a["jm"] - 1, a["im"])))
     cells = sim.sea_cells(G, a["sub"])
     cols = ["release_time", "X", "Y", "Z"] + (["mult"] if a["has_mult"] else []) + [e for e in a["extras"] if e != "release_time"]
+    if a.get("active_col"):
+        cols.append("active")   # the state's own flag given per release row as 0 / 1 (switched-off particles stay put)
     lines = []
-    for r in a["rows"]:
+    for nrow_, r in enumerate(a["rows"]):
         i, j = cells[r["cell"] % len(cells)]
         vals = {"release_time": e2e.iso(start + scen.S(r["step"] * DT)), "X": repr(i + r["fx"]), "Y": repr(j + r["fy"]),
-                "Z": repr(r["z"]), "mult": r["mult"], "X0": repr(i + r["fx"]), "kind": r["kind"]}
+                "Z": repr(r["z"]), "mult": r["mult"], "X0": repr(i + r["fx"]), "kind": r["kind"],
+                "active": 0 if (a.get("active_col", 0) >> (nrow_ % 8)) & 1 else 1}
         lines.append([vals[c] for c in cols])
     e2e.write_release(d / "rel.rls", lines, cols, header=False)
     gfmod = "ladim.ROMS"
@@ -209,6 +214,8 @@ def render(a, F, d, spelling, out):
             c["gridforce"]["extra_forcing"] = ["temp"]
         for v in pvars:
             c["particle_release"][v] = ptype(v)
+        if a.get("active_col"):
+            c["particle_release"]["active"] = "int"   # LADiM 1 converter line for the extra column
         if a["cont"]:
             c["particle_release"]["release_type"] = "continuous"
             c["particle_release"]["release_frequency"] = freq
@@ -330,6 +337,8 @@ def oracle(a) -> core.CaseResult:
     res = core.CaseResult()
     res.cls("wildcard" if a["nfiles"] > 1 else "single_file")
     res.cls("gridfile" if a["gridfile"] else "grid_from_forcing")
+    if a.get("active_col"):
+        res.cls("release_rows_switched_off")
     if a.get("plug_gf"):
         res.cls("user_grid_forcing_module")
     if not a["cont"] and a.get("stale_freq"):
